@@ -218,11 +218,12 @@ def _sub(p):
 
 def _routes(path, kinds, routes):
     """yield (prelude, container expression, route class). kinds[i] is the kind of the container
-    *holding* path[i]. 'core' = attribute route + full local alias; 'attr+aug-alias' (handled by the
+    *holding* path[i]. 'attr' = attribute route only; 'core' = attribute route + full local alias; 'attr+aug-alias' (handled by the
     caller) = attribute route for everything, full alias only for the augmented assignments."""
     n = len(path)
     full = 'obj.data' + ''.join(_sub(p) for p in path)
     yield '', full, 'attr'
+    if routes == 'attr': return
     yield 'a = %s; ' % full, 'a', 'alias'
     if routes == 'core': return
     for k in range(n):          # alias bound at a proper prefix
@@ -255,6 +256,7 @@ def steps(vk, doc, readonly, routes):
         attr = ARRAY_ATTR[vk]
         templates = ARRAY_READ if readonly else ARRAY_MUT
         for pre, c, route in (('', 'obj.' + attr, 'attr'), ('a = obj.%s; ' % attr, 'a', 'alias')):
+            if routes == 'attr' and route != 'attr': continue
             for op, t in templates:
                 src = pre + t.replace('{{', '{').replace('}}', '}').replace('{c}', c).replace('{v}', v).replace('{w}', w).replace('{e}', e)
                 out.append((src, dict(ckind='list', op=op, route=route, path=[])))
